@@ -446,13 +446,22 @@ def generate_facts(repo):
     F('DUMP_PUTS_HEADERS_BACK', lambda: (('impl' in d and 'Drop for' in d and 'data.take()' in d) and before(d, 'from_records(', 'taken.data = None', 'dump_in_memory')), 'src/blob/index/core.rs',
       'dump_in_memory: the headers taken out of the index go back unless the file was written')
     sy = S('src/io/unix/sync.rs')
-    a = Lazy(lambda: body_with(sy, 'write_append_writable_data', ['fetch_add']))
-    F('APPEND_RESERVES_THEN_WRITES', lambda: (before(a, 'size.fetch_add(', 'write_data(', 'write_append_writable_data') and
-      a.count('resync_size_after_failed_append(') == a.count('write_data(')), 'src/io/unix/sync.rs',
-      'record append: the offset is reserved before the write, and after a failed write the size falls back to the file length')
+    a = Lazy(lambda: body_with(sy, 'write_append_writable_data', ['reserve(']))
+    rsv = Lazy(lambda: body_with(sy, 'reserve', ['fetch_add']))
+    F('APPEND_RESERVES_THEN_WRITES', lambda: (before(a, 'AppendInFlight::reserve(', 'write_data(', 'write_append_writable_data') and
+      a.count('resync_size_after_failed_append(') == a.count('write_data(') and
+      before(rsv, 'appends_in_flight.fetch_add(1', 'size.fetch_add(len', 'AppendInFlight::reserve') and 'size.fetch_add(' not in a), 'src/io/unix/sync.rs',
+      'record append: the append is counted as in flight, then its offset is reserved, then it writes; after a failed write the size falls back to the file length')
     fd = Lazy(lambda: body_with(sy, 'fsyncdata', ['sync_all']))
-    F('SYNCED_SIZE_CAPTURED_BEFORE_SYNC', lambda: (before(fd, 'self.size()', 'sync_all()', 'File::fsyncdata') and 'synced_size.fetch_max(size' in fd), 'src/io/unix/sync.rs',
-      'File::fsyncdata: the size recorded as synced is the one read before the sync started')
+    F('SYNCED_SIZE_CAPTURED_BEFORE_SYNC', lambda: (before(fd, 'let size = self.inner.written_size.load(', 'sync_all()', 'File::fsyncdata') and 'synced_size.fetch_max(size' in fd
+      and 'self.size()' not in fd and 'size.load' not in str(fd).replace('written_size.load', '')), 'src/io/unix/sync.rs',
+      'File::fsyncdata: what is recorded as synced is `written_size` (not `size`) as read before the sync started (Conc/SyncAcct.v step S1)')
+    dr = Lazy(lambda: body_with(sy, 'drop', ['appends_in_flight']))
+    F('WRITTEN_SIZE_ADVANCES_ONLY_WHEN_QUIET', lambda: (before(dr, 'size.load(', 'appends_in_flight.fetch_sub(1', 'AppendInFlight::drop') and
+      re.search(r'appends_in_flight\.fetch_sub\(1,\s*Ordering::SeqCst\)\s*==\s*1', str(dr)) is not None and
+      before(dr, '== 1', 'written_size.fetch_max(size', 'AppendInFlight::drop') and
+      sy.count('written_size.fetch_max(') + sy.count('written_size.store(') + sy.count('written_size.fetch_add(') == 1), 'src/io/unix/sync.rs',
+      'end of an append: `size` is read BEFORE the in-flight counter is decremented and `written_size` is raised to it only by the append that was the last one in flight (Conc/SyncAcct.v steps A4, A5)')
     bc = S('src/blob/core.rs')
     rc = Lazy(lambda: body_with(bc, 'read_current_record', ['meta_size']))
     F('SCAN_CHECKS_RECORD_END', lambda: (before(rc, '+= header.meta_size()', '> self.file.size()', 'read_current_record') and
